@@ -151,11 +151,14 @@ def gen_case(chk, i):
     nth = rng.randint(2, 6) if ncpu <= 6 else rng.randint(6, 14)
     desc = {"looms": [{"name": "bd", "cpus": [(k, k) for k in range(ncpu)],
                        "procs": [{"pid": 5, "appid": 1, "threads": list(range(50, 50 + nth))}]}]}
+    # a third of the histories pause and resume tasks bare (no API / blocking
+    # region around the pause), the rest in the shape the runtimes produce
+    bare = rng.random() < 0.35
     g = histgen.Gen(rng, desc, mc, {}, weights={"task": 10, "model": 8, "state": 3, "aff": 3, "misc": 0, "mark": 0, "kernel": 0},
-                    wrapped_pause=True)
+                    wrapped_pause=not bare)
     g.run(rng.choice([80, 200, 400]))
     hist = g.finish(close_regions=True)
-    return {"mc": mc, "desc": desc, "hist": hist}
+    return {"mc": mc, "desc": desc, "hist": hist, "bare": bare}
 
 
 _CTX = {}
@@ -167,7 +170,7 @@ def run_case(i):
     mc, desc, hist = case["mc"], case["desc"], case["hist"]
     wd = os.path.join(chk.scratch, "b%d" % i)
     res = {"i": i, "viol": None, "inconclusive": None, "events": len(hist), "mc": mc, "ncpu": len(desc["looms"][0]["cpus"]),
-           "changes": 0}
+           "changes": 0, "bare": case["bare"], "bodyless": 0}
     try:
         extra = {"nosv": {"can_breakdown": True}} if mc == "V" else None
         tracegen.write_trace(wd, desc, hist, require=histgen.require_of(mc), extra_meta=extra)
@@ -210,8 +213,11 @@ def run_case(i):
         last = None
         for k, (cs, bs) in enumerate(zip(cst, bst)):
             vals = []
+            ambiguous = False
             for row in phys:
                 ss = cs.get((row, sst)); tt = cs.get((row, tyt)); idle = cs.get((row, idt))
+                if ss == TASKBODY and tt is None:
+                    ambiguous = True
                 if ss == TASKBODY and tt is not None:
                     tr = tt
                 elif ss is not None:
@@ -222,6 +228,10 @@ def run_case(i):
                 vals.append(v)
             exp = sorted(vals)
             got = [bs.get((r, bt), 0) for r in range(1, nrows + 1)]
+            if ambiguous:
+                # some CPU is "in a task body" with no task shown (bare pause):
+                # there is no task type, so "otherwise the subsystem" applies
+                res["bodyless"] = res.get("bodyless", 0) + 1
             if got != exp:
                 ev = hist[k]
                 res["viol"] = ("breakdown-not-sorted-multiset:%s" % mc,
@@ -250,12 +260,12 @@ def main(argv):
     if chk.replay:
         rp = json.load(open(chk.replay))["replay"]
         cases = [rp["case"]] if "case" in rp else []
-    nb = ev = changes = 0
+    nb = ev = changes = nbare = bodyless = 0
     shapes = set()
     for r in core.pmap(run_case, cases):
         if r["inconclusive"]:
             chk.note_inconclusive(r["inconclusive"]); continue
-        nb += 1; ev += r["events"]; changes += r["changes"]
+        nb += 1; ev += r["events"]; changes += r["changes"]; nbare += 1 if r["bare"] else 0; bodyless += r["bodyless"]
         shapes.add((r["mc"], r["ncpu"]))
         if r["viol"]:
             chk.report(r["viol"][0], r["viol"][1], {"case": r["i"], "observation": r["viol"][2]})
@@ -264,12 +274,14 @@ def main(argv):
                    "depth 4/5 for 1..4 inputs (sampled for the larger n in the quick tier) and random sequences (up to 64 "
                    "inputs, 64-bit values, several inputs per propagation): outputs == ascending sort (null as 0) after each "
                    "propagation and the set of outputs written == outputs whose value changed; (B) nOS-V and Nanos6 "
-                   "histories (tasks of several types, subsystems, idle states, pause/migration, 2-6 CPUs) emulated with -b: "
+                   "histories (tasks of several types, subsystems, idle states, pause/migration, tasks paused inside an API/"
+                   "blocking region or bare, 2-18 CPUs) emulated with -b: "
                    "breakdown rows == sorted per-physical-CPU values derived from the same run's cpu.prv after every event. "
                    "distinct_nontrivial = distinct harness sequences + (model, CPUs) shapes",
            "samples": [{"harness": "3 : 0=2 ; 1=1 ; 0=N", "expected": "0 0 2 / 111 ; 0 1 2 / 010 ; 0 0 1 / 011"}],
            "harness_sequences": nseq, "harness_propagations": nsteps, "breakdown_traces": nb, "events_compared": ev,
-           "distinct_breakdown_states": changes, "exhaustive": True,
+           "distinct_breakdown_states": changes, "bare_pause_histories": nbare,
+           "instants_in_task_body_without_task": bodyless, "exhaustive": True,
            "exhaustive_scope": "single-input change sequences to the stated depth on the sort module"}
     return chk.finish(cov, assumptions=[
         "per-CPU breakdown value = task type while the CPU's subsystem is the task body and a type is shown, else the "
